@@ -1,10 +1,69 @@
-/- line-protocol handlers for the C17 Gvar subsetting model -/
-import FontVerif.Model.Base
+/- line-protocol handlers for the C17 gvar subsetting model (Model/SubsetGvar.lean) and the pass-through
+table models (Model/SubsetMeta.lean)
+
+requests (space separated; `-` = empty; sections introduced by single capital letters):
+  c17.gvar <flags> <nout> <tableLen> <srcGlyphs> H <hex 12 header bytes> T <hex | - | X> M <new old>… D <slot>…
+      T: the source bytes [sharedTuplesOffset, +2*axisCount*sharedTupleCount) (`X` = out of bounds)
+      D: one slot per M entry: `-` Ok(None), `E` Err, hex = Ok(Some(bytes)) of data_for_gid(old)
+      -> `ok <hex of the emitted table>` | `trap` | `dropped` | `err` | `unmodelled`
+  c17.gvarread <gid> <hex table>      read-fonts Gvar::read + data_for_gid(gid)
+      -> `unreadable` | `err` | `none` | `some <hex>`
+-/
+import FontVerif.Model.SubsetGvar
 namespace FontVerif.Drv.C17Gvar
-open FontVerif
+open FontVerif FontVerif.SubsetGvar
+
+/-- split `args` into sections at the given marker tokens, in order -/
+def sections (markers : List String) (args : List String) : Option (List (List String)) :=
+  match markers with
+  | [] => some [args]
+  | m :: ms =>
+    let pre := args.takeWhile (· ≠ m)
+    match args.dropWhile (· ≠ m) with
+    | [] => none
+    | _ :: rest => (sections ms rest).map (pre :: ·)
+
+def natList (ts : List String) : Option (List Nat) :=
+  if ts = ["-"] then some [] else parseNats? ts
+
+def pairList (ts : List String) : Option (List (Nat × Nat)) := do
+  let ns ← natList ts
+  let rec go : List Nat → Option (List (Nat × Nat))
+    | [] => some []
+    | [_] => none
+    | a :: b :: rest => (go rest).map ((a, b) :: ·)
+  go ns
+
+def parseSlot (t : String) : Option Slot :=
+  if t = "-" then some .none else if t = "E" then some .err else (parseHex? t).map .data
+
+def fmtSlot : Slot → String
+  | .none => "none"
+  | .err => "err"
+  | .data b => s!"some {toHex b}"
 
 def handle (cmd : String) (args : List String) : Option String :=
   match cmd with
+  | "c17.gvar" => do
+    let [hd, h, t, m, d] ← sections ["H", "T", "M", "D"] args | none
+    let [flags, nout, tableLen, srcGlyphs] ← parseNats? hd | none
+    let [hh] := h | none
+    let [tt] := t | none
+    let header ← parseHex? hh
+    let sharedSlice ← if tt = "X" then some none else (parseHex? tt).map some
+    let n2o ← pairList m
+    let slots ← if n2o.isEmpty then (if d = ["-"] then some [] else none) else d.mapM parseSlot
+    if slots.length ≠ n2o.length then none else
+    match subsetGvar { flags, nout, tableLen, srcGlyphs, header, sharedSlice, n2o, slots } with
+    | .error e => some e
+    | .ok (_, out) => some s!"ok {toHex out}"
+  | "c17.gvarread" => do
+    let [g, h] := args | none
+    let gid ← parseNat? g
+    let t ← parseHex? h
+    match readGvar t with
+    | none => some "unreadable"
+    | some r => some (fmtSlot (dataForGid t r gid))
   | _ => none
 
 end FontVerif.Drv.C17Gvar
